@@ -358,7 +358,8 @@ ck.cov["corpus_replayed"] = corpus_n
 # ---------------------------------------------------------------------------------------------- generated programs
 rng = ck.rng
 pair_cursor = [rng.below(144)]
-N_TARGET = 160 if QUICK else 4000
+BASELINE_MODE = bool(os.environ.get("VERIF_C07_BASELINE"))   # maintenance: rewrite corpus/C07/ctests-baseline.json
+N_TARGET = 0 if BASELINE_MODE else 160 if QUICK else 4000
 GEN_BUDGET = BUDGET * (0.62 if QUICK else 0.7)
 tg = time.time()
 progs_meta = []          # (name, units) of programs that ran clean, for the oracle stages
@@ -513,6 +514,7 @@ else:
 tc = time.time()
 CT_BUDGET = BUDGET - (time.time() - T0) + (60 if QUICK else 0)
 known_ct = BASE.get("differs", {})
+new_base = {"differs": {}, "slow": {}}
 with ThreadPoolExecutor(max_workers=16) as ex:
     futs = []
     for t in pick:
@@ -540,12 +542,21 @@ with ThreadPoolExecutor(max_workers=16) as ex:
         if not diff:
             ct_stats["agree"] += 1
             continue
+        if BASELINE_MODE:
+            new_base.setdefault("differs", {})[rel] = {"configs": diff, "class": cfg_class(diff, [c for c in CFGNAMES if c in res]),
+                                                        "symptom": symptom(res, diff), "first_diff": first_diff(res["gcc0"][1], res[diff[0]][1]),
+                                                        "stderr": res[diff[0]][2][-200:]}
+            continue
         if rel in known_ct:
-            why = known_ct[rel]
+            why = known_ct[rel] if isinstance(known_ct[rel], str) else known_ct[rel].get("why", "unclassified")
             ct_stats["baseline_hits"][why] = ct_stats["baseline_hits"].get(why, 0) + 1
             continue
         report(None, res, "ct-" + hashlib.md5(rel.encode()).hexdigest()[:8], "c-tests/" + rel,
                src=open(os.path.join(CT, rel), errors="replace").read() if not os.path.exists(os.path.join(CT, os.path.dirname(rel), "add-" + os.path.basename(rel))) else None)
+if BASELINE_MODE:
+    with open(bp + ".new", "w") as f:
+        json.dump(new_base, f, indent=1, sort_keys=True)
+    ck.log("baseline candidates written to " + bp + ".new")
 ck.stage("c-tests", **{k: v for k, v in ct_stats.items() if k != "baseline_hits"})
 
 # ---------------------------------------------------------------------------------------------- evidence
